@@ -124,7 +124,7 @@ pub fn run_history(hist: &[Action], st: &mut Stats) -> Result<Option<Registry>, 
         let routed = reg.route(&payload);
         payloads.push(payload);
         ignores.push(matches!(a, Action::Exec { shim_ignores: true, .. }));
-        if routed == Routed::Fatal {
+        if routed == Routed::Fatal || routed == Routed::Refused {
             break;
         }
     }
@@ -139,6 +139,7 @@ pub fn run_payloads(payloads: &[Vec<u8>], ignores: &[bool], st: &mut Stats) -> R
     let mut expected = vec![auth_cb()];
     let mut skip_iter = Vec::new();
     let mut fatal_at = None;
+    let mut lenient = false;
     for (step, payload) in payloads.iter().enumerate() {
         let routed = reg.route(payload);
         cmds.push(ClientCmd::new(payload.clone()));
@@ -157,6 +158,11 @@ pub fn run_payloads(payloads: &[Vec<u8>], ignores: &[bool], st: &mut Stats) -> R
             Routed::NoCb => {}
             Routed::Fatal => {
                 fatal_at = Some(step);
+                break;
+            }
+            Routed::Refused => {
+                fatal_at = Some(step);
+                lenient = true;
                 break;
             }
             other => panic!("VERIF harness bug: registry action routed to {:?}", other),
@@ -208,6 +214,15 @@ pub fn run_payloads(payloads: &[Vec<u8>], ignores: &[bool], st: &mut Stats) -> R
         Some(k) => {
             st.bump("histories_ending_in_refusal");
             if !o.res.is_err() {
+                if lenient {
+                    // refused with an ERR reply instead of ending the connection: also fine, as
+                    // long as the command was answered by exactly one ERR and nothing shifted
+                    let d = decode_all(&o.sim.out, &conv, &s.last_seq, n_cmds + 1, false).map_err(|e| Violation::new("reply-decode", e))?;
+                    return match &d.replies[k][..] {
+                        [Unit::Err(_)] => Ok(None),
+                        other => Err(Violation::new("undecodable-execute-served", format!("an execution that reuses types although none were bound was answered by {} unit(s) that are not a single ERR", other.len()))),
+                    };
+                }
                 return Err(Violation::new("refusal-not-an-error", format!("action {} must end the connection with an error, run_on returned {}", k, o.res.short())));
             }
             decode_all(&o.sim.out[..o.sim.flushed], &conv, &s.last_seq, k, false).map_err(|e| Violation::new("reply-decode", e))?;
@@ -257,7 +272,8 @@ impl Family for Tree {
         let mut reg = Registry::default();
         for (step, a) in h.iter().enumerate() {
             let p = encode(&reg, a, step);
-            if reg.route(&p) == Routed::Fatal && step + 1 < h.len() {
+            let r = reg.route(&p);
+            if (r == Routed::Fatal || r == Routed::Refused) && step + 1 < h.len() {
                 st.bump("pruned_duplicates");
                 return Ok(());
             }
